@@ -50,6 +50,7 @@ import (
 	"github.com/Cloud-Foundations/keymaster/lib/webapi/v0/proto"
 	"github.com/duo-labs/webauthn/webauthn"
 	"github.com/fxamacker/cbor/v2"
+	"github.com/go-jose/go-jose/v4"
 	"github.com/go-jose/go-jose/v4/jwt"
 	"github.com/pquerna/otp/totp"
 	"github.com/tstranex/u2f"
@@ -1249,6 +1250,12 @@ type c06Obs struct {
 }
 
 func (p *c06Prober) serve(req *http.Request) c06Obs {
+	o, _ := p.serveRR(req)
+	return o
+}
+
+// the same, and the recorded response (the login family decodes its Set-Cookie)
+func (p *c06Prober) serveRR(req *http.Request) (c06Obs, *httptest.ResponseRecorder) {
 	before := p.mapsDigest()
 	p.log.last = nil
 	rr := httptest.NewRecorder()
@@ -1290,7 +1297,7 @@ func (p *c06Prober) serve(req *http.Request) c06Obs {
 		o.effects |= c06EffStart
 	}
 	p.resetMaps()
-	return o
+	return o, rr
 }
 
 // a well-formed request for the route (what a fitting credential would need to succeed)
@@ -1598,7 +1605,7 @@ func c06Setup(t *testing.T, cfg c06Config, mat *c06Material, fakes *c06Fakes) *v
 
 func TestVerif_C06(t *testing.T) {
 	verifWriteConsts(t)
-	res := newVerifResult("every route of the regenerated service mux x ~60 credential shapes (none, basic good/bad, session of every level, expired / not yet valid / foreign key / other kind / wrong issuer / audience / tampered / alg none, keymaster certificates with 2-element, 1-element, multi-path, foreign-CA chains, deny-listed key, empty CN, IP-restricted certificates inside / outside / with client-supplied address headers / non-automation / corrupted extension, certificate + session) x {GET, POST, PUT} x 16 Origin/Referer shapes x target users, through the production mux; direct calls of checkAuth over shapes x ~20 masks; observables: user in the access log, signed material verifying under the keymaster keys, profile canaries, digest of both tables, challenge/push maps, fake push services; non-trivial = admitted or effect observed; distinct by (route, shape, method, origin, target, observation)")
+	res := newVerifResult("every route of the regenerated service mux x ~60 credential shapes (none, basic good/bad, session of every level, expired / not yet valid / foreign key / other kind / wrong issuer / audience / tampered / alg none, keymaster certificates with 2-element, 1-element, multi-path, foreign-CA chains, deny-listed key, empty CN, IP-restricted certificates inside / outside / with client-supplied address headers / non-automation / corrupted extension, certificate + session) x {GET, POST, PUT} x 16 Origin/Referer shapes x target users, through the production mux; direct calls of checkAuth over shapes x ~20 masks; the login route as issuer of sessions: login credential (form / Authorization header / both, right and wrong password) x attached auth_cookie state of the login user and of another user (every level, valid / expired / foreign / junk) x client certificate x method x Accept, the Set-Cookie decoded under the server's public key; observables: user in the access log, signed material verifying under the keymaster keys, profile canaries, digest of both tables, challenge/push maps, fake push services; non-trivial = admitted or effect observed; distinct by (route, shape, method, origin, target, observation)")
 	now := time.Now().Unix()
 	fk, _ := ecdsa.GenerateKey(elliptic.P256(), rand.Reader)
 	ftmpl := x509.Certificate{SerialNumber: big.NewInt(99), Subject: pkix.Name{CommonName: "foreign CA"}, NotBefore: time.Now().Add(-time.Hour), NotAfter: time.Now().Add(48 * time.Hour),
@@ -1636,6 +1643,7 @@ func TestVerif_C06(t *testing.T) {
 	var shapeCoq []string
 	var gateCases, gateIdx []string
 	var wgCases, wgIdx, wrCases, wrIdx []string
+	var lgCookies, lgCases, lgIdx []string
 	var groups, routeIdx []string
 	nRoute := 0
 	groupOffset := 0
@@ -1681,9 +1689,14 @@ func TestVerif_C06(t *testing.T) {
 			}
 			c06GateCases(p, thorough, &gateCases, &gateIdx)
 			wgCases, wgIdx, wrCases, wrIdx = c06WindowCases(p, hit)
+			lgCookies, lgCases, lgIdx = c06LoginCases(p, thorough, false, 0, 0, hit)
 		}
 		if ci == 0 {
 			c06RealTLS(p, hit)
+		}
+		if cfg.name == "B" {
+			ck, cs, ix := c06LoginCases(p, thorough, true, len(lgCookies), len(lgIdx), hit)
+			lgCookies, lgCases, lgIdx = append(lgCookies, ck...), append(lgCases, cs...), append(lgIdx, ix...)
 		}
 		if cfg.okta {
 			// the Okta authenticator only knows users that logged in through it recently
@@ -1966,6 +1979,10 @@ func TestVerif_C06(t *testing.T) {
 	sb.WriteString("Definition wroute_cases : list wroute := [\n " + strings.Join(wrCases, ";\n ") + "].\n")
 	sb.WriteString("Definition c06_window_route_mismatches := Eval vm_compute in mismatches wroute_bad wroute_cases.\nPrint c06_window_route_mismatches.\n")
 	sb.WriteString("Definition c06_window_route_violating := Eval vm_compute in mismatches wroute_violating wroute_cases.\nPrint c06_window_route_violating.\n")
+	sb.WriteString("Definition login_cookies : list (option token) := [\n " + strings.Join(lgCookies, ";\n ") + "].\n")
+	sb.WriteString("Definition login_cases : list lcase := [\n " + strings.Join(lgCases, ";\n ") + "].\n")
+	sb.WriteString("Definition c06_login_mismatches := Eval vm_compute in first_bad (map (login_bad shapes login_cookies now) login_cases).\nPrint c06_login_mismatches.\n")
+	sb.WriteString("Definition c06_login_violating := Eval vm_compute in first_bad (map (login_violating shapes login_cookies now) login_cases).\nPrint c06_login_violating.\n")
 	var gchunks, rchunks []string
 	for i := 0; i < len(gateCases); i += 3000 {
 		j := i + 3000
@@ -1996,6 +2013,8 @@ func TestVerif_C06(t *testing.T) {
 	ioutil.WriteFile(filepath.Join(verifOut(), "CasesC06_webui.idx"), []byte(strings.Join(webuiCases, "\n")), 0644)
 	ioutil.WriteFile(filepath.Join(verifOut(), "CasesC06_wgate.idx"), []byte(strings.Join(wgIdx, "\n")), 0644)
 	ioutil.WriteFile(filepath.Join(verifOut(), "CasesC06_wroute.idx"), []byte(strings.Join(wrIdx, "\n")), 0644)
+	ioutil.WriteFile(filepath.Join(verifOut(), "CasesC06_login.idx"), []byte(strings.Join(lgIdx, "\n")), 0644)
+	res.Extra["login_probes"] = len(lgCases)
 	res.Extra["window_gate_calls"] = len(wgCases)
 	res.Extra["window_route_probes"] = len(wrCases)
 	res.sample(map[string]interface{}{"route": "/api/v0/manageU2FToken", "credential": "cookie-alice-password+u2f", "method": "GET", "referer": "https://evil.example.net/x.html", "expected": "no effect"})
@@ -2665,4 +2684,363 @@ func c06AuthorizationCode(p *c06Prober) string {
 		return ""
 	}
 	return loc.Query().Get("code")
+}
+
+// ---------------------------------------------------------------- the login route as issuer of sessions
+
+// The credential of the login route is the Authorization: Basic header if there is one, else the form.
+// Everything else a request can carry - an auth_cookie of the same or of another user, of any level, valid or
+// not; a client certificate - comes along and must not count: the session minted names the (normalised) user
+// whose password was verified, at the password level exactly.  Login requests for one user x every attached
+// cookie state of that user and of another one x the certificate kinds of the shape list x methods x Accept;
+// the Set-Cookie of the real handler is decoded under the server's public key (go-jose, not the code under
+// test) and compared with Model/Routes.v login_handler inside Coq; the oracle below knows the specification
+// only (who typed whose password, which is right by construction).
+
+type c06LoginCred struct {
+	name, class       string
+	hdr, form         bool
+	hdrUser, hdrPw    string
+	formUser, formPw  string
+	hdrGood, formGood bool // by construction: the password is the one of the (normalised) user
+}
+
+// the harness's own normalisation of a typed user name: CR / LF dropped (form only), lower case
+func c06NormUser(s string, form bool) string {
+	var b []byte
+	for i := 0; i < len(s); i++ {
+		c := s[i]
+		if form && (c == '\r' || c == '\n') {
+			continue
+		}
+		if c >= 'A' && c <= 'Z' {
+			c += 'a' - 'A'
+		}
+		b = append(b, c)
+	}
+	return string(b)
+}
+
+// whose session may be minted: (user, true) iff the credential the route reads is a verified password
+func (c *c06LoginCred) expected() (user string, present, good bool) {
+	if c.hdr {
+		return c06NormUser(c.hdrUser, false), true, c.hdrGood
+	}
+	if c.form {
+		return c06NormUser(c.formUser, true), true, c.formGood
+	}
+	return "", false, false
+}
+
+func (c *c06LoginCred) coq() (hdr, form string) {
+	hdr, form = "None", "None"
+	if c.hdr {
+		hdr = fmt.Sprintf("(bas %d %s)", c06User(c06NormUser(c.hdrUser, false)), coqBool(c.hdrGood))
+	}
+	if c.form {
+		form = fmt.Sprintf("(bas %d %s)", c06User(c06NormUser(c.formUser, true)), coqBool(c.formGood))
+	}
+	return
+}
+
+var c06LoginCreds = []c06LoginCred{
+	{name: "form-bob-good", class: "form-good", form: true, formUser: "bob", formPw: "bobpw", formGood: true},
+	{name: "form-bob-wrong-password", class: "form-bad", form: true, formUser: "bob", formPw: "alicepw"},
+	{name: "basic-bob-good", class: "header-good", hdr: true, hdrUser: "bob", hdrPw: "bobpw", hdrGood: true},
+	{name: "basic-bob-wrong-password", class: "header-bad", hdr: true, hdrUser: "bob", hdrPw: "wrong"},
+	{name: "form-Bob-crlf-good", class: "form-good-unnormalised-name", form: true, formUser: "Bo\r\nB", formPw: "bobpw", formGood: true},
+	{name: "basic-bob-good+form-alice-good", class: "header-good+form-good", hdr: true, hdrUser: "bob", hdrPw: "bobpw", hdrGood: true, form: true, formUser: "alice", formPw: "alicepw", formGood: true},
+	{name: "basic-bob-wrong-password+form-alice-good", class: "header-bad+form-good", hdr: true, hdrUser: "bob", hdrPw: "nope", form: true, formUser: "alice", formPw: "alicepw", formGood: true},
+	{name: "form-admin-good", class: "form-good", form: true, formUser: "admin", formPw: "adminpw", formGood: true},
+	{name: "no-login-credential", class: "none"},
+}
+
+// an attached auth_cookie state
+type c06LoginCookie struct {
+	name, class string
+	values      []string // the auth_cookie values of the request, in order (the last one is the one checkAuth reads)
+	coq         string   // option token: the last one
+	claims      bool     // the last value carries owner / level claims (valid or not)
+	valid       bool
+	owner       string
+	level       int
+}
+
+func c06LoginCookies(p *c06Prober, thorough bool) []c06LoginCookie {
+	env, now := p.env, p.mat.now
+	out := []c06LoginCookie{{name: "no-cookie", class: "no-cookie", coq: "None"}}
+	levelClass := func(l int) string {
+		switch {
+		case l&AuthTypePassword == 0:
+			return "2fa-without-password-bit"
+		case l == AuthTypePassword:
+			return "password-only"
+		}
+		return "with-2fa"
+	}
+	rel := func(owner string) string {
+		if owner == "bob" {
+			return "login-user" // the user most login credentials of the family name
+		}
+		return "other-user"
+	}
+	good := func(owner string, level int, tag string) {
+		out = append(out, c06LoginCookie{name: fmt.Sprintf("cookie-%s-%s", owner, tag), class: "cookie-" + rel(owner) + "-" + levelClass(level),
+			values: []string{env.sessionJWT(owner, level, now-60, now-60, now+7200)},
+			coq:    "(Some " + c06Tok(true, true, false, true, true, 0, now-60, now+7200, now-60, c06User(owner), level) + ")",
+			claims: true, valid: true, owner: owner, level: level})
+	}
+	levels := []struct {
+		tag string
+		l   int
+	}{{"password", AuthTypePassword}, {"password+u2f", AuthTypePassword | AuthTypeU2F}, {"password+totp", AuthTypePassword | AuthTypeTOTP},
+		{"password+vip", AuthTypePassword | AuthTypeSymantecVIP}, {"u2f-only", AuthTypeU2F}, {"password+okta", AuthTypePassword | AuthTypeOkta2FA},
+		{"every-bit", AuthTypePassword | AuthTypeFederated | AuthTypeU2F | AuthTypeSymantecVIP | AuthTypeIPCertificate | AuthTypeTOTP | AuthTypeOkta2FA | AuthTypeBootstrapOTP | AuthTypeKeymasterX509 | AuthTypeWebauthForCLI | AuthTypeFIDO2}}
+	rng := verifRand()
+	nRandom := 2
+	if thorough {
+		nRandom = 12
+	}
+	for i := 0; i < nRandom; i++ {
+		l := rng.Intn(1<<12) &^ 1
+		if l == 0 {
+			l = AuthTypeFIDO2
+		}
+		levels = append(levels, struct {
+			tag string
+			l   int
+		}{fmt.Sprintf("level-%d", l), l})
+	}
+	for _, owner := range []string{"alice", "bob"} {
+		for _, lv := range levels {
+			good(owner, lv.l, lv.tag)
+		}
+	}
+	lvl := AuthTypePassword | AuthTypeU2F
+	issuer := env.state.idpGetIssuer()
+	for _, owner := range []string{"alice", "bob"} {
+		out = append(out, c06LoginCookie{name: "cookie-" + owner + "-u2f-expired", class: "cookie-" + rel(owner) + "-expired",
+			values: []string{env.sessionJWT(owner, lvl, now-7200, now-7200, now-100)},
+			coq:    "(Some " + c06Tok(true, true, false, true, true, 0, now-7200, now-100, now-7200, c06User(owner), lvl) + ")", claims: true, owner: owner, level: lvl})
+	}
+	out = append(out, c06LoginCookie{name: "cookie-alice-u2f-foreign-key", class: "cookie-invalid",
+		values: []string{verifSignClaims(p.mat.foreignKey, authInfoJWT{Issuer: issuer, Subject: "alice", Audience: []string{issuer},
+			AuthType: lvl, TokenType: "keymaster_auth", NotBefore: now - 60, IssuedAt: now - 60, Expiration: now + 7200})},
+		coq: "(Some " + c06Tok(false, true, false, true, true, 0, now-60, now+7200, now-60, 1, lvl) + ")", claims: true, owner: "alice", level: lvl})
+	out = append(out, c06LoginCookie{name: "cookie-alice-u2f-other-kind", class: "cookie-invalid",
+		values: []string{verifSignClaims(env.state.Signer, authInfoJWT{Issuer: issuer, Subject: "alice", Audience: []string{issuer},
+			AuthType: lvl, TokenType: "keymaster_webauth_for_cli_identity", NotBefore: now - 60, IssuedAt: now - 60, Expiration: now + 7200})},
+		coq: "(Some " + c06Tok(true, true, false, true, true, 1, now-60, now+7200, now-60, 1, lvl) + ")", claims: true, owner: "alice", level: lvl})
+	out = append(out, c06LoginCookie{name: "cookie-garbage", class: "cookie-invalid", values: []string{"not-a-token"},
+		coq: "(Some " + c06Tok(false, false, true, false, false, 0, 0, 0, 0, 0, 0) + ")"})
+	// two cookies of that name: the one read is the last
+	aliceU2F, bobPw := env.sessionJWT("alice", lvl, now-60, now-60, now+7200), env.sessionJWT("bob", AuthTypePassword, now-60, now-60, now+7200)
+	out = append(out, c06LoginCookie{name: "cookies-bob-password-then-alice-u2f", class: "cookie-other-user-with-2fa", values: []string{bobPw, aliceU2F},
+		coq: "(Some " + c06Tok(true, true, false, true, true, 0, now-60, now+7200, now-60, 1, lvl) + ")", claims: true, valid: true, owner: "alice", level: lvl})
+	out = append(out, c06LoginCookie{name: "cookies-alice-u2f-then-bob-password", class: "cookie-login-user-password-only", values: []string{aliceU2F, bobPw},
+		coq: "(Some " + c06Tok(true, true, false, true, true, 0, now-60, now+7200, now-60, 2, AuthTypePassword) + ")", claims: true, valid: true, owner: "bob", level: AuthTypePassword})
+	return out
+}
+
+// the auth_cookie a response sets, decoded under the server's public key: (set at all, verifies, subject, auth_type)
+func c06MintedSession(st *RuntimeState, rr *httptest.ResponseRecorder) (set, verifies bool, sub string, level int) {
+	for _, ck := range rr.Result().Cookies() {
+		if ck.Name != authCookieName || ck.Value == "" {
+			continue
+		}
+		set, verifies, sub, level = true, false, "", 0
+		tok, err := jwt.ParseSigned(ck.Value, []jose.SignatureAlgorithm{jose.ES256, jose.ES384, jose.ES512, jose.RS256, jose.RS384, jose.RS512, jose.PS256, jose.PS384, jose.PS512, jose.EdDSA})
+		if err != nil {
+			continue
+		}
+		var claims struct {
+			Sub       string `json:"sub"`
+			AuthType  int    `json:"auth_type"`
+			TokenType string `json:"token_type"`
+		}
+		if tok.Claims(st.Signer.Public(), &claims) != nil || claims.TokenType != "keymaster_auth" {
+			continue
+		}
+		verifies, sub, level = true, claims.Sub, claims.AuthType
+	}
+	return
+}
+
+// the defect shape of an observed minting (empty: the observation satisfies the specification)
+func c06LoginDefect(cred *c06LoginCred, ck *c06LoginCookie, cert *c06Shape, sub string, level int) string {
+	user, present, good := cred.expected()
+	switch {
+	case !present:
+		return "minted-without-login-credential"
+	case !good:
+		return "minted-on-wrong-password"
+	case sub != user:
+		return "wrong-subject"
+	case level == AuthTypePassword:
+		return ""
+	case level&AuthTypePassword == 0:
+		return "password-bit-missing"
+	}
+	extra := level &^ AuthTypePassword
+	if ck.claims && extra&^ck.level == 0 {
+		switch {
+		case !ck.valid:
+			return "extra-level-from-attached-cookie:invalid-cookie"
+		case ck.owner == user:
+			return "extra-level-from-attached-cookie:same-user"
+		}
+		return "extra-level-from-attached-cookie:other-user"
+	}
+	if cert.hasTLS && extra&^(AuthTypeKeymasterX509|AuthTypeIPCertificate) == 0 {
+		return "extra-level-from-attached-certificate"
+	}
+	return "extra-level"
+}
+
+// reduced: another configuration (web UI by password: the HTML answer is a redirect) with the core of the family;
+// ckOff / idxOff: how many cookie states / cases earlier calls have put into the case file
+func c06LoginCases(p *c06Prober, thorough, reduced bool, ckOff, idxOff int, hit func(verifHit)) (cookieCoq, cases, idx []string) {
+	st := p.env.state
+	var route *verifRoute
+	for _, r := range verifRouteTable() {
+		if c06RouteKey(r) == "runtimeState.loginHandler" {
+			rc := r
+			route = &rc
+		}
+	}
+	if route == nil {
+		return // the obligations over the regenerated route table say so
+	}
+	cookies := c06LoginCookies(p, thorough)
+	for _, c := range cookies {
+		cookieCoq = append(cookieCoq, c.coq+" (* "+c.name+" *)")
+	}
+	var certs []int
+	for _, want := range []string{"none", "cert-km-alice", "cert-km-admin", "cert-ip-inside"} {
+		for si := range p.shapes {
+			if p.shapes[si].name == want {
+				certs = append(certs, si)
+			}
+		}
+	}
+	probe := func(cred *c06LoginCred, cki, si int, method string, html bool) {
+		ck, cert := &cookies[cki], &p.shapes[si]
+		var form url.Values
+		if cred.form {
+			form = url.Values{"username": {cred.formUser}, "password": {cred.formPw}}
+		}
+		req := verifNewRequest(method, route.Path, form)
+		if cred.hdr {
+			req.SetBasicAuth(cred.hdrUser, cred.hdrPw)
+		}
+		if html {
+			req.Header.Set("Accept", "text/html")
+		}
+		for _, v := range ck.values {
+			req.AddCookie(authCookie(v))
+		}
+		cert.apply(req)
+		obs, rr := p.serveRR(req)
+		set, verifies, sub, level := c06MintedSession(st, rr)
+		minted := 0
+		if set {
+			minted = 1
+		}
+		accept := "json"
+		if html {
+			accept = "html"
+		}
+		class := cred.class + "+" + ck.class
+		if cert.hasTLS {
+			class += "+" + cert.class
+		}
+		p.res.eval(fmt.Sprintf("login|%s|%s|%s|%s|%s|%d|%s|%d|%d", cred.name, ck.name, cert.name, method, accept, minted, sub, level, obs.status), set)
+		p.res.bump("login-probe")
+		p.res.bump("login-cookie:" + ck.class)
+		if set {
+			p.res.bump("login-minted")
+			p.witnessed["runtimeState.loginHandler"] |= c06EffSigned
+		}
+		desc := map[string]interface{}{"config": p.cfgName, "route": route.Path, "handler": "runtimeState.loginHandler", "method": method, "accept": accept,
+			"login_credential": cred.name, "attached_cookie": ck.name, "attached_cookie_owner": ck.owner, "attached_cookie_level": ck.level, "attached_cookie_valid": ck.valid,
+			"client_certificate": cert.name}
+		observed := map[string]interface{}{"status": obs.status, "set_cookie": set, "verifies": verifies, "subject": sub, "auth_type": level}
+		if set && !verifies {
+			hit(verifHit{Key: "C06:login-minted-level:cookie-does-not-verify", Oracle: "the login route sets an auth_cookie that does not verify under the server's key as a keymaster_auth token",
+				What: fmt.Sprintf("%s %s with %s, attached %s, certificate %s: status %d", method, route.Path, cred.name, ck.name, cert.name, obs.status), Case: desc, Observed: observed})
+		}
+		if set && verifies {
+			if defect := c06LoginDefect(cred, ck, cert, sub, level); defect != "" {
+				user, _, _ := cred.expected()
+				// what the minted cookie is worth at a gate that wants a second factor
+				for _, c := range rr.Result().Cookies() {
+					if c.Name == authCookieName {
+						follow := verifNewRequest("GET", "/probe", nil)
+						follow.AddCookie(authCookie(c.Value))
+						if ai, err := st.checkAuth(httptest.NewRecorder(), follow, AuthTypeU2F|AuthTypeTOTP|AuthTypeSymantecVIP|AuthTypeOkta2FA|AuthTypeFIDO2); err == nil && ai != nil {
+							observed["minted_cookie_passes_second_factor_gate_as"] = ai.Username
+						}
+					}
+				}
+				hit(verifHit{Key: "C06:login-minted-level:" + defect, Oracle: "the session minted by the login route is not (the user whose password was verified, password level only)",
+					What: fmt.Sprintf("%s %s with login credential %s (user %q), attached auth_cookie %s (owner %q, level %d, valid %v), client certificate %s -> Set-Cookie auth_cookie for %q at level %d (password level is %d), status %d",
+						method, route.Path, cred.name, user, ck.name, ck.owner, ck.level, ck.valid, cert.name, sub, level, AuthTypePassword, obs.status),
+					Case: desc, Observed: observed})
+			}
+		}
+		subN, code := 0, 0
+		if set {
+			subN = c06User(sub)
+			if !verifies {
+				subN = 255
+			}
+		} else {
+			code = obs.status
+		}
+		hdrCoq, formCoq := cred.coq()
+		cases = append(cases, fmt.Sprintf("LG %d %d %s %s %d %d %d %d %d", si, ckOff+cki, hdrCoq, formCoq, c06MethN(method), minted, subN, level, code))
+		idx = append(idx, fmt.Sprintf("%d\tconfig=%s login %s %s accept=%s cred=%s cookie=%s cert=%s class=%s -> status=%d minted=%d subject=%q level=%d",
+			idxOff+len(idx), p.cfgName, method, route.Path, accept, cred.name, ck.name, cert.name, class, obs.status, minted, sub, level))
+	}
+	core := func(ck *c06LoginCookie) bool {
+		return ck.name == "no-cookie" || ck.name == "cookie-alice-password+u2f" || ck.name == "cookie-bob-password+u2f"
+	}
+	if reduced && !thorough {
+		for ci := range c06LoginCreds {
+			for cki := range cookies {
+				if core(&cookies[cki]) {
+					probe(&c06LoginCreds[ci], cki, certs[0], "POST", true)
+					probe(&c06LoginCreds[ci], cki, certs[0], "POST", false)
+				}
+			}
+		}
+		return
+	}
+	for ci := range c06LoginCreds {
+		cred := &c06LoginCreds[ci]
+		for cki := range cookies {
+			ck := &cookies[cki]
+			for k, si := range certs {
+				// quick tier: certificates with {no cookie, a second-factor session of each user}; with every cookie state for
+				// the two plain good logins
+				if !thorough && k > 0 && !(core(ck) || cred.name == "form-bob-good" || cred.name == "basic-bob-good") {
+					continue
+				}
+				for _, method := range []string{"POST", "GET"} {
+					for _, html := range []bool{false, true} {
+						if !thorough && k > 0 && (method != "POST" || html) {
+							continue
+						}
+						if !thorough && html && method == "GET" {
+							continue
+						}
+						probe(cred, cki, si, method, html)
+					}
+				}
+			}
+		}
+		probe(cred, 0, certs[0], "PUT", false)
+		probe(cred, 2, certs[0], "PUT", false)
+	}
+	return
 }
